@@ -1,6 +1,7 @@
 """Convenience functions built on top of `make_vjp`."""
 
 from collections import OrderedDict
+from inspect import ismethod
 
 try:
     from inspect import getfullargspec as _getargspec  # Python 3
@@ -81,7 +82,11 @@ def holomorphic_grad(fun, x):
 def grad_named(fun, argname):
     """Takes gradients with respect to a named argument.
     Doesn't work on *args or **kwargs."""
-    arg_index = _getargspec(fun).args.index(argname)
+    argnames = _getargspec(fun).args
+    if ismethod(fun):
+        # a bound method is called without its first parameter
+        argnames = argnames[1:]
+    arg_index = argnames.index(argname)
     return grad(fun, arg_index)
 
 
